@@ -186,6 +186,103 @@ Definition chk (c : graph * graph) : bool := let g' := orphan_pass 30 (fst c) in
                out[-1000:] if bad is None else f"differs on cases {bad[:5]}: {[rows[i][0] for i in bad[:2]]}")
 
 
+# ------------------------------------------------------------------ tie D: the verified identity-reshape pass
+def tie_idreshape_pass(ctx, n_cases):
+    import onnx_ir as ir
+    from jax2onnx.converter import ir_optimizations as opt
+    rng = ctx.rng
+    rows = []
+    removed_total = 0
+    SHAPES = [(2, 3), (6,), (3, 2), (1, 6), (2, 3), ("B", 3), (), None]
+    for c in range(n_cases):
+        def mk(name, shp):
+            if shp is None:
+                return ir.Value(name=name, type=ir.TensorType(ir.DataType.FLOAT))
+            return ir.val(name, ir.DataType.FLOAT, shp)
+        vals = [mk(f"in_{i}", rng.choice(SHAPES)) for i in range(rng.randint(1, 2))]
+        inputs = list(vals)
+        consts = []
+        nodes = []
+        for k in range(rng.randint(2, 7)):
+            kind = rng.random()
+            if kind < 0.6:
+                data = rng.choice(vals)
+                dshape = None if data.shape is None else tuple(d if isinstance(d, int) else None for d in data.shape.dims)
+                r = rng.random()
+                if r < 0.55 and dshape is not None and all(d is not None for d in dshape) and len(dshape) > 0:
+                    tgt = list(dshape)
+                elif r < 0.7:
+                    tgt = [-1, 3]
+                elif r < 0.8:
+                    tgt = [0, 3]
+                else:
+                    tgt = list(rng.choice([(3, 2), (6,), (1, 6), (2, 3)]))
+                dt = np.int64 if rng.random() < 0.9 else np.uint8
+                if dt is np.uint8 and min(tgt) < 0:
+                    dt = np.int64
+                cst = ir.val(f"shape_{k}", ir.DataType.INT64 if dt is np.int64 else ir.DataType.UINT8, (len(tgt),),
+                             const_value=ir.tensor(np.asarray(tgt, dt)))
+                consts.append(cst)
+                q = rng.random()
+                oshape = tuple(abs(t) or 1 for t in tgt) if q < 0.6 else (None if q < 0.85 else (6,))
+                out = mk(f"v{k}", oshape)
+                n = ir.Node("", "Reshape", [data, cst], outputs=[out], name=f"n{k}")
+            elif kind < 0.85:
+                src = rng.choice(vals)
+                out = mk(f"v{k}", None if src.shape is None else tuple(src.shape.dims))
+                n = ir.Node("", "Relu", [src], outputs=[out], name=f"n{k}")
+            else:
+                cap = rng.choice(vals)
+                bo = ir.val(f"b{k}", ir.DataType.FLOAT, (2, 3))
+                body = ir.Graph([], [bo], nodes=[ir.Node("", "Neg", [cap], outputs=[bo], name=f"bn{k}")], name=f"g{k}")
+                cond = ir.val(f"c{k}_", ir.DataType.BOOL, (), const_value=ir.tensor(np.asarray(True)))
+                consts.append(cond)
+                out = mk(f"v{k}", None)
+                n = ir.Node("", "If", [cond], outputs=[out], name=f"n{k}",
+                            attributes=[ir.Attr("then_branch", ir.AttributeType.GRAPH, body)])
+            nodes.append(n)
+            vals.append(out)
+        produced = [n.outputs[0] for n in nodes]
+        outs = rng.sample(produced, rng.randint(1, min(2, len(produced))))
+        g = ir.Graph(inputs, outs, nodes=nodes, initializers=consts, name="g", opset_imports={"": 23})
+        table = {}
+
+        def intern(name):
+            return table.setdefault(name, len(table))
+        before = _dump(ir, g, intern)
+        shapes, cvals = {}, {}
+        for v in list(inputs) + consts + produced:
+            if v.shape is not None and all(isinstance(d, int) for d in v.shape.dims):
+                shapes[intern(v.name)] = [int(d) for d in v.shape.dims]
+            cv = opt._value_const_ints(v)
+            if cv is not None:
+                cvals[intern(v.name)] = [int(x) for x in cv]
+        opt.remove_identity_reshapes_ir(g)
+        after = _dump(ir, g, intern)
+        removed_total += len(before[0]) - len(after[0])
+        rows.append((before, after, shapes, cvals))
+
+    def fn(d, ty, lit):
+        arms = " ".join(f"| {k} => Some {lit(v)}" for k, v in sorted(d.items()))
+        return f"(fun n : nat => match n with {arms} | _ => @None {ty} end)"
+
+    def rg(b, shapes, cvals):
+        nl = lambda l: "[" + "; ".join(str(x) for x in l) + "]"  # noqa: E731
+        zl = lambda l: "[" + "; ".join(f"({x})%Z" for x in l) + "]"  # noqa: E731
+        nodes = "[" + "; ".join(f'mkNode "{op}"%string [] {nl(i)} {nl(cc)} {nl(o)}' for op, i, cc, o in b[0]) + "]"
+        return f"(mkRG {nodes} {nl(b[1])} {fn(shapes, '(list nat)', nl)} {fn(cvals, '(list Z)', zl)})"
+    txt = common.CASES_HEADER + "From J2O Require Import Graph Redirect IdReshapePass.\nClose Scope Z_scope.\n"
+    txt += """Definition leqb (a b : list nat) := list_eqb Nat.eqb a b.
+Definition node_eqb (a b : node) := String.eqb (n_op a) (n_op b) && leqb (n_ins a) (n_ins b) && leqb (n_caps a) (n_caps b) && leqb (n_outs a) (n_outs b).
+Definition chk (c : rgraph * graph) : bool := let g' := idreshape_pass 30 (fst c) in list_eqb node_eqb (rg_nodes g') (g_nodes (snd c)) && leqb (rg_outputs g') (g_outputs (snd c)).
+"""
+    txt += "Definition cs := [\n" + ";\n".join(f"({rg(b, sh, cv)}, {_coq_graph(*a)})" for b, a, sh, cv in rows) + "].\nEval vm_compute in bad_idx_ chk 0 cs.\n"
+    ok, out = common.coq_eval_file(ctx, "c02_idreshape", txt)
+    bad = common.coq_bad_indices(out) if ok else None
+    ctx.oblige(f"tie:IdReshapePass.v idreshape_pass == remove_identity_reshapes_ir ({n_cases} random graphs, {removed_total} nodes removed)", bad == [], "tie",
+               out[-1000:] if bad is None else f"differs on cases {bad[:5]}: {[rows[i][:2] for i in bad[:2]]}")
+
+
 # ------------------------------------------------------------------ tie D: the verified cast pass
 def tie_cast_pass(ctx):
     """the REAL remove_redundant_casts_ir vs the Coq model cast_pass (theories/CastPass.v) on the cast family of the
@@ -299,6 +396,7 @@ def run(ctx):
     tie_primitives(ctx, 250 if ctx.tier == "quick" else 1500)
     tie_cast_pass(ctx)
     tie_orphan_pass(ctx, 200 if ctx.tier == "quick" else 1500)
+    tie_idreshape_pass(ctx, 200 if ctx.tier == "quick" else 1500)
     items, res = enumerate_graphs(ctx)
     import collections
     st = collections.Counter(r["status"] for r in res)
